@@ -143,6 +143,14 @@ Theorem C13_window_refuted :
     tailS cs w_bg (Qsum w_word - d) < w_p.
 Proof. exact TfmRefute.C13_window_refuted. Qed.
 
+(* the window predicates attached by the check to every observation ([ls_flags] on the
+   table the implementation reports) are those of the theorems, for every instance of
+   the model (exact rationals and binary64 alike) *)
+Theorem C13_window_flags : forall {T} (N : NumOps T) G bg p mn mx o,
+  lookup_score N G bg p mn mx = Ok o ->
+  ls_flags N p (last (ls_rows o) []) = (ls_exhausted o, ls_total_lt o).
+Proof. exact @ls_flags_spec. Qed.
+
 (* The extracted checker used on the implementation's observations decides exactly the
    two clauses of the property (relative tolerance [tol] on p), against the exact
    tail [T] = [tailS] (C12_check_tail); [below_max rows x u]: u is the largest
